@@ -111,6 +111,22 @@ CLAIMS["C16"] = (
     CLAIMS["C01"][2] + " Regular-expression semantics is Go's regexp (the reference the property names).",
     "DESIGN.md 4/C16")
 
+CLAIMS["C14"] = (
+    "TLA+ name-test rule (XSem.tla NameMatch: no map / map+URI navigator / map+plain navigator / unbound prefix) explored "
+    "by TLC over all documents up to 3-4 nodes with 0..3 namespaces under varying prefixes x 5 namespace maps x 2 "
+    "navigator flavours x prefixed/unprefixed tests on all 12 axes and the name functions; replay on the engine",
+    "Bounded-exhaustive model checking over configurations; unbound prefixes must make CompileWithNS fail.",
+    CLAIMS["C01"][2], "DESIGN.md 4/C14")
+CLAIMS["C15"] = (
+    "TLC enumerates the typed matrix defined in the specification (XPools.tla: every function x every argument tuple of "
+    "length 0..3 over one representative per static type, every operator x ordered type pair, variables, every axis name, "
+    "each as top-level expression, predicate and function argument); the harness classifies every outcome of "
+    "Compile/Select/Evaluate on the real engine",
+    "Exhaustive enumeration of the operand-type / arity matrix; the oracle is a classification: a runtime.Error, a panic "
+    "value that is not an error created by the package, a hang, an endless iterator or an undocumented result type is a "
+    "violation; deliberate complaints are fine.",
+    CLAIMS["C01"][2] + " The specification supplies the matrix, not expected values.", "DESIGN.md 4/C15")
+
 NOT_YET = "check not built yet in this round (see DESIGN.md section 9 for the construction order)"
 
 
